@@ -98,6 +98,36 @@ def run(facts, res):
     # anything else is rejected: the chain of len()== tests ends in an Err return
     if not _else_rejects(r, lc, facts):
         res.violation("K2", "unknown-arity-not-rejected", "the block loader does not reject change records of other arities", r.loc())
+    # K2g: acceptance conditions agree: the loader must not reject a record shape under a condition the writer does
+    # not also impose when it emits that shape
+    from ..cfg import cfg_of
+    from ..common import assigns_of_return
+    SHAPE = {"ok_or_else", "as_str", "is_array", "is_object", "as_array", "from", "branch", "next", "len", "contains_key", "get"}
+    for (op, k_), sites in lc.items():
+        if op != "Eq":
+            continue
+        for eb, st in assigns_of_return(r, "Err"):
+            ls = lits_of(r, eb, facts)
+            under = [i for i, l in enumerate(ls) if l.kind == "cmp" and l.term[1] == "Eq" and l.truth is True and
+                     any(x[0] == "const" and x[1] == "int" and x[2] == k_ for x in (l.term[2], l.term[3]))]
+            if not under:
+                continue
+            extra = []
+            for l in ls[under[-1] + 1:]:
+                if l.kind == "variant" and l.variants <= {"Break", "Err", "None"}:
+                    pt = peel(l.term)
+                    if pt[0] == "call" and callee_name(pt) in SHAPE | {"ok_or_else"}:
+                        continue   # per-element type / syntax checks
+                if l.kind == "call" and callee_name(l.term) in ("is_none", "is_some") or (l.kind == "variant" and l.variants <= {"None", "Some"}):
+                    extra.append(l)
+            for l in extra:
+                # does the writer emit arity-k records only under a matching condition? (it conditions on the element's own
+                # parent, never on the block's parents)
+                res.violation("K2", "arity-%d-rejected-under-extra-condition" % k_,
+                              "the block loader rejects arity-%d change records under the additional condition %s, but Delta::to_json / commit emit "
+                              "such records whenever a staged revision has a parent: a first commit that contains an update is written and then "
+                              "rejected on reopen" % (k_, l), r.loc(st.line))
+    res.instance("K2", "loader rejections under an arity test carry no condition beyond per-element shape checks", r.loc())
     # positions
     wpos = {}
     for n, els, ln, bi in arr:
